@@ -52,6 +52,29 @@ var loopCtl = map[string]string{
     println("end");
 }
 `,
+	// a `break` / `continue` inside the CONDITION of a while loop belongs to the enclosing loop
+	"exits-in-while-conditions": `fn main() {
+    let n = 0;
+    loop {
+        n += 1;
+        let k = 0;
+        while { if n > 3 { break; } k < 2 } { k += 1; println(n, k); }
+    }
+    println("end", n);
+    for i in 0..4 {
+        let k = 0;
+        while { if i == 1 { continue; } k < 1 } { k += 1; println("i", i); }
+        println("after", i);
+    }
+    let m = 0;
+    while m < 5 {
+        m += 1;
+        let j = 0;
+        while j < 3 && { if m == 2 { continue; } true } { j += 1; }
+        println("m", m, j);
+    }
+}
+`,
 	"guarded": `fn find(limit: int) -> int {
     let acc = 0;
     for i in 0..20 {
